@@ -158,9 +158,11 @@ def wrapper_judge(res, rng, idx, spec, layout_only):
             args = [(v & ((1 << wd) - 1), 0) for v in ([0, 1, (1 << wd) - 1, 0x5A5A5A5A5A5A5A5A, rng.next()] + masks)]
         else:
             args = [(k, v) for k in (masks or [1, 2, 4, 0x80]) for v in (0, 1)]
-        for img in (bytes(size), b'\xff' * size, rng.bytes(size), rng.bytes(size)):
+        for k_img, img in enumerate((bytes(size), b'\xff' * size, rng.bytes(size), rng.bytes(size))):
             for (a1, a2) in args:
-                lines_w.append('FWD %d %d %d %s' % (w['id'], a1, a2, hx(img)))
+                # the object's type tag is part of its prior state: some wrappers run after the tag was changed through the public setters
+                retag = 0 if k_img < 2 else rng.below(8)
+                lines_w.append('FWD %d %d %d %d %s' % (w['id'], a1, a2, retag, hx(img)))
                 lines_t.append('ACC %d %d %d %d %s' % (t['cls'], t['id'], a1, a2, hx(img)))
                 meta.append((w, a1, a2, img))
     if not meta:
